@@ -344,3 +344,29 @@ Proof.
     vm_compute in Hin. destruct Hin as [E|[]]. discriminate. }
   repeat split; vm_compute; reflexivity.
 Qed.
+
+(* non-vacuity of map_nests_acyclic: the depth-3 example of Theory5 satisfies its hypotheses *)
+Theorem map_nests_acyclic_nonvacuous :
+  exists B T', mk_bremap exM = Ok B /\ NoDup (keys exT) /\
+    inj_on (b_map_class B) (keys exT ++ map n_encl exT) /\
+    (forall n, In n exT -> rsplit_uu (b_map_class B (n_class n)) = None) /\
+    map_nests exT exM = Ok T' /\ acyclic exT /\ acyclic T' /\ T' <> exT.
+Proof.
+  destruct (mk_bremap exM) as [B|] eqn:EB; [|vm_compute in EB; discriminate].
+  destruct (map_nests exT exM) as [T'|] eqn:ET; [|vm_compute in ET; discriminate].
+  exists B, T'. split; [reflexivity|].
+  vm_compute in EB. injection EB as <-.
+  split; [eapply nodupb_NoDup; [apply str_eqb_eq|vm_compute; reflexivity]|].
+  split; [apply inj_onb_spec; vm_compute; reflexivity|].
+  split.
+  { assert (H : forallb (fun n => match rsplit_uu (b_map_class
+        [mkB nA [90] []; mkB nB [88] [(([109], [40;76;68;59;41;76;69;59]), ([110], [40;76;67;95;55;59;41;76;89;59]))];
+         mkB nD [67;95;55] [(([109], [40;41;86]), ([114], [40;41;86]))]; mkB nE [89] []] (n_class n)) with None => true | Some _ => false end) exT = true)
+      by (vm_compute; reflexivity).
+    rewrite forallb_forall in H. intros n Hn. specialize (H n Hn).
+    destruct (rsplit_uu _); [discriminate|reflexivity]. }
+  split; [reflexivity|].
+  split; [apply acyclicb_spec; vm_compute; reflexivity|].
+  vm_compute in ET. injection ET as <-.
+  split; [apply acyclicb_spec; vm_compute; reflexivity|]. vm_compute. discriminate.
+Qed.
